@@ -326,8 +326,12 @@ class Functional(Operator):
             if other == 0:
                 from odl.solvers.functional.default_functionals import (
                     ConstantFunctional)
-                return ConstantFunctional(self.domain,
-                                          self(self.domain.zero()))
+                if self.domain == self.domain.field:
+                    # A field is no `LinearSpace`, it has no ``zero()``
+                    zero = self.domain.element(0)
+                else:
+                    zero = self.domain.zero()
+                return ConstantFunctional(self.domain, self(zero))
             elif self.is_linear:
                 return FunctionalLeftScalarMult(self, other)
             else:
